@@ -290,9 +290,12 @@ undef(void)
 	entry = mapput(&macros, &k);
 	m = *entry;
 	if (m) {
+		/*
+		do not free the parameter and replacement lists: the
+		macro may be in the middle of an expansion (a directive
+		inside its argument list)
+		*/
 		free(name);
-		free(m->param);
-		free(m->token);
 		*entry = NULL;
 	}
 	scan(&tok);
